@@ -196,7 +196,7 @@ class C03(core.Check):
 
     # ------------------------------------------------------------------ generators
     def gen_cases(self, rng: random.Random, tier: str) -> List[dict]:
-        n = 1500 if tier == "quick" else 40000
+        n = 1500 if tier == "quick" else 15000
         cases: List[dict] = []
         for _ in range(n):
             cases.append(self._gen_chop(rng))
@@ -440,7 +440,7 @@ class C03(core.Check):
         """bounded exhaustive part of the thorough tier: all counts 1..200 x a fixed ratio set, all pairs with count"""
         out = []
         ratios = [0.5, 0.75, 0.95, 1 - 1e-6, 1 - 1e-9, 1.0, 1 + 1e-9, 1 + 1e-6, 1.05, 1.3, 2.0]
-        for L in (1.0, 0.037, 250.0):
+        for L in (1.0, 0.037):
             for n in range(1, 201):
                 for c in ratios:
                     out.append({"kind": "chop", "L": L, "given": {"count": n, "c2c_expansion": c}})
@@ -561,6 +561,10 @@ class C03(core.Check):
                 n = int(n)
                 o.append(f"n:{n}")
                 info["n"] = n
+                if e["rel"] in ("count<start_size+c2c_expansion", "count<end_size+c2c_expansion") and isinstance(e["args"][1], str):
+                    c = float(Fraction(e["args"][1]))
+                    if abs(c - 1) > LIB_TOL * 0.98:  # log(1 + n(c-1)) carries an absolute error of ~1.1e-16 / (c-1) cells
+                        cnt_tol = EPS_CNT + 4.4e-16 / abs(c - 1)
                 if e["rel"] == "count<total_expansion+start_size" and isinstance(e["args"][0], str):
                     T = float(Fraction(e["args"][0]))
                     if T > 0 and abs(T - 1) >= LIB_TOL * 0.5 and n >= 2:
@@ -670,12 +674,29 @@ class C03(core.Check):
             return True
         return abs(a - b) <= Fraction(eps) * max(abs(a), abs(b))
 
-    def _cmp_calc(self, run: dict, ans: str, what: str) -> Optional[str]:
+    @staticmethod
+    def _at_limit(L: float, run: dict) -> bool:
+        """the argument of the logarithm in a count<size+c2c relation is within 1e-9 of zero"""
+        for e in run["log"]:
+            if e["rel"] in ("count<start_size+c2c_expansion", "count<end_size+c2c_expansion"):
+                if not all(isinstance(a, str) for a in e["args"]):
+                    return False
+                size, c = (Fraction(a) for a in e["args"])
+                if size <= 0 or c <= 0:
+                    return False
+                LL = Fraction(L)
+                arg = 1 - LL / size * (1 - c) if e["rel"].startswith("count<start") else 1 + LL / size * (1 - c) / c
+                return abs(arg) < Fraction(1, 10**9)
+        return False
+
+    def _cmp_calc(self, run: dict, ans: str, what: str, L: float = 1.0) -> Optional[str]:
         tok = ans.split()
         plan = next((t[5:] for t in tok if t.startswith("plan:")), "-")
         plan_list = [] if plan == "-" else plan.split(";")
         called = [e["rel"] for e in run["log"]]
         if run["ok"]:
+            if tok[0] != "ok" and self._at_limit(L, run):
+                return None
             if tok[0] != "ok":
                 return f"{what}: implementation returns ({run['count']}, {run['total']}), model answers {ans[:200]}"
             if called != plan_list:
@@ -706,6 +727,8 @@ class C03(core.Check):
             return f"{what}: implementation raises {run['err']} in {failing}, model in {at}"
         if called != plan_list[: len(called)]:
             return f"{what}: relations called {called}, model plan {plan_list}"
+        if at in ("count<start_size+c2c_expansion", "count<end_size+c2c_expansion") and self._at_limit(L, run):
+            return None  # log of a number within rounding of 0: nan, -inf or a huge count, all legitimate
         if kind == "ValueError" and run["err"] != "ValueError":
             return f"{what}: model expects ValueError, implementation raises {run['err']}"
         if kind == "ZeroDivisionError" and run["err"] != "ZeroDivisionError":
@@ -756,7 +779,7 @@ class C03(core.Check):
                         if (iv is None) != (mv.get(k) is None) or (iv is not None and (not isinstance(iv, str) or Fraction(iv) != mv[k])):
                             return f"__post_init__: field {k} = {iv}, model {mv.get(k)}"
                 elif tag == "calc":
-                    why = self._cmp_calc(impl["run"], ans, "calculate")
+                    why = self._cmp_calc(impl["run"], ans, "calculate", case["L"])
                     if why:
                         return why
                 elif tag == "count":
@@ -783,7 +806,7 @@ class C03(core.Check):
                         if iv is not None and (not isinstance(iv, str) or not self._close(Fraction(iv), mv[k], 1e-15)):
                             return f"invert: field {k} = {iv}, model {mv.get(k)}"
                 elif tag == "inv_calc":
-                    why = self._cmp_calc(impl["inv_run"], ans, "calculate(inverted)")
+                    why = self._cmp_calc(impl["inv_run"], ans, "calculate(inverted)", case["L"])
                     if why:
                         return why
             return None
@@ -882,6 +905,8 @@ class C03(core.Check):
             slack = eps
             if "c2c_expansion" in given and abs(float(given["c2c_expansion"]) - 1) <= LIB_TOL * 1.02:
                 slack += n * abs(float(given["c2c_expansion"]) - 1)
+            if "c2c_expansion" in given and abs(float(given["c2c_expansion"]) - 1) >= LIB_TOL * 0.98:
+                slack += 4.4e-16 / abs(float(given["c2c_expansion"]) - 1)  # rounding inside log(1 + n(c-1))
             if Tg is not None and Tg > 0:
                 if abs(Tg - 1) < LIB_TOL * 1.02:
                     slack += abs(Tg - 1)  # uniform branch: the deviation of T from 1 is ignored
@@ -1017,6 +1042,14 @@ class C03(core.Check):
         s, e = g["start_size"], g["end_size"]
         return s + e <= L * (1 - m)
 
+    @staticmethod
+    def _one_cell_start(L: float, g: dict) -> bool:
+        """the input class of the known finding: one cell requested together with a start size other than the length"""
+        return (
+            len(g) == 2 and "start_size" in g and "count" in g and max(int(g["count"]), 1) == 1
+            and L > 0 and 0 < g["start_size"] < L and abs(g["start_size"] - L) / L >= LIB_TOL
+        )
+
     def _oracle_chop(self, L: float, given: dict, impl: dict, boundary: bool) -> List[dict]:
         tag = self._pairname(given)
         out: List[dict] = []
@@ -1026,7 +1059,7 @@ class C03(core.Check):
         g = {k: (float(v) if k != "count" else v) for k, v in given.items()}
         mr = self._must_reject(L, g)
         # the known finding is reported once, under one site, and nothing else is concluded from that case
-        if run["ok"] and mr and mr.startswith("count=1,start_size<length"):
+        if run["ok"] and self._one_cell_start(L, g):
             return [{"site": FINDING_COUNT1, "what": f"L={L}, {given}: one cell cannot have start size {g['start_size']}; "
                      f"accepted as {run['count']} cell(s), total expansion {run['total']}", "observed": [run["count"], run["total"]],
                      "expected": "an exception"}]
@@ -1182,6 +1215,10 @@ class C03(core.Check):
                 if Fraction(row["ratio"]) != Fraction(q):
                     out.append({"site": "Grading.add_chop:length-ratio-not-stored", "what": f"{q} -> {row['ratio']}"})
                 g = {k: (float(v) if k != "count" else v) for k, v in ch["given"].items()}
+                if self._one_cell_start(L * q, g):
+                    out.append({"site": FINDING_COUNT1, "what": f"Grading.add_chop on sub-length {L * q}, {ch['given']}: accepted as "
+                                f"{row['count']} cell(s), total expansion {row['total']}", "expected": "an exception"})
+                    continue
                 if len(g) <= 2 and not self._must_reject(L * q, g):
                     vs, _ = self._spec_violations(L * q, g, row["count"], row["total"], "Grading.add_chop:" + self._pairname(g))
                     out.extend(vs)
